@@ -105,6 +105,14 @@ pub fn record_c06(a: &Args) -> usize {
         sizes.push((200, 33));
         sizes.push((255, 20));
     }
+    // tall and wide pages with the full projection
+    sizes.extend_from_slice(&[(2, 2050), (1, 2049), (3, 300), (300, 3), (1, 257 * 8)]);
+    // huge pages with the sparse projection
+    let huge: Vec<(u32, u32)> = if thorough { vec![(1, 16_777_217), (2, 1 << 20), (3, 70_000), (70_000, 9), (1, 1 << 24), (2, 16_777_217)] } else { vec![(1, 16_777_217), (2, 70_001), (40_000, 9)] };
+    for (w, h) in huge {
+        out.balance();
+        record_sparse(&mut out, &mut rng, w, h, if thorough { 60 } else { 24 });
+    }
     let ops_per = if thorough { 120 } else { 40 };
     for (k, (w, h)) in sizes.iter().enumerate() {
         out.balance();
@@ -162,6 +170,87 @@ pub fn record_c06(a: &Args) -> usize {
         }
     }
     out.finish()
+}
+
+/// Huge pages (up to millions of rows): the full pixel matrix cannot be projected, so each operation is recorded with
+/// the bytes that changed, whether header and padding stayed, and before/after readings of a probe set (the target, its
+/// neighbours, pixels 8 / 256 / 2048 / 65536 rows away, the corners, the last row, and random pixels).
+fn record_sparse(out: &mut TraceOut, rng: &mut StdRng, w: u32, h: u32, ops: usize) {
+    let fresh = match catch(|| Page::new(PageId(9), w, h)) {
+        Ok(p) => p,
+        Err(_) => {
+            out.emit(json!({"e": "sparse", "w": w, "h": h, "op": {"k": "setall", "x": 0, "y": 0, "v": false}, "res": "panic", "nchanged": 0, "changed": [], "probes": [], "hdr_same": true, "pad_same": true, "len_same": true}));
+            return;
+        }
+    };
+    let mut p = fresh;
+    let db = data_bytes(w, h);
+    for k in 0..ops {
+        let (x, y) = match k % 6 {
+            0 => (w - 1, h - 1),
+            1 => (0, h - 1),
+            2 => (rng.gen_range(0..w), rng.gen_range(0..h)),
+            3 => (rng.gen_range(0..w), h - 1 - rng.gen_range(0..h.min(9))),
+            4 => (w.saturating_sub(1), [2048u32, 2049, 4096, 65536, 1 << 20, 1 << 24].iter().copied().filter(|r| *r < h).last().unwrap_or(0)),
+            _ => (if k % 12 == 5 { w } else { rng.gen_range(0..w) }, if k % 12 == 5 { 0 } else { h }),
+        };
+        let op = match k % 5 {
+            0 if k > 0 => json!({"k": "setall", "x": 0, "y": 0, "v": k % 10 == 0}),
+            4 => json!({"k": "get", "x": x, "y": y, "v": false}),
+            _ => json!({"k": "set", "x": x, "y": y, "v": k % 7 != 3}),
+        };
+        // probe set
+        let mut probes: Vec<(u32, u32)> = vec![(0, 0), (w - 1, 0), (0, h - 1), (w - 1, h - 1)];
+        if x < w && y < h {
+            probes.insert(0, (x, y));
+            for d in [1u32, 7, 8, 9, 255, 256, 2047, 2048, 2049, 4096, 65536, 1 << 20, 1 << 24] {
+                if y >= d {
+                    probes.push((x, y - d));
+                }
+                if y.checked_add(d).map(|r| r < h).unwrap_or(false) {
+                    probes.push((x, y + d));
+                }
+            }
+            if x > 0 {
+                probes.push((x - 1, y));
+                probes.push((x - 1, h - 1));
+            }
+            if x + 1 < w {
+                probes.push((x + 1, y));
+                probes.push((x + 1, 0));
+            }
+        }
+        for _ in 0..12 {
+            probes.push((rng.gen_range(0..w), rng.gen_range(0..h)));
+        }
+        probes.dedup();
+        let read = |p: &Page<'_>, q: &(u32, u32)| -> i64 { catch(|| p.get_pixel(q.0, q.1)).map(|b| b as i64).unwrap_or(2) };
+        let before: Vec<i64> = probes.iter().map(|q| read(&p, q)).collect();
+        let old = p.as_bytes().to_vec();
+        let res = apply_op(&mut p, &op);
+        let new = p.as_bytes();
+        let mut changed = vec![];
+        let mut nchanged = 0usize;
+        if new.len() == old.len() {
+            for i in 0..new.len() {
+                if new[i] != old[i] {
+                    nchanged += 1;
+                    if changed.len() < 4 {
+                        changed.push(json!([i, old[i], new[i]]));
+                    }
+                }
+            }
+        }
+        let after: Vec<i64> = probes.iter().map(|q| read(&p, q)).collect();
+        let hdr_same = new.len() >= 4 && old.len() >= 4 && new[..4] == old[..4];
+        let pad_same = new.len() == old.len() && db <= new.len() && new[db..] == old[db..];
+        let mut logged = op.clone();
+        logged["x"] = json!(x.min(i32::MAX as u32));
+        logged["y"] = json!(y.min(i32::MAX as u32));
+        out.emit(json!({"e": "sparse", "w": w, "h": h, "op": logged, "res": res, "nchanged": nchanged, "changed": changed,
+                        "probes": probes.iter().zip(before.iter().zip(after.iter())).map(|(q, (b, a))| json!([q.0, q.1, b, a])).collect::<Vec<_>>(),
+                        "hdr_same": hdr_same, "pad_same": pad_same, "len_same": new.len() == old.len()}));
+    }
 }
 
 // ------------------------------------------------------------------ C07
